@@ -16,19 +16,19 @@ import (
 
 // VerifCensus counts what a trie is made of.
 type VerifCensus struct {
-	Foreign    bool // the base is not this package's trie (e.g. the zero-value route through UnsafeGoMap)
-	Entries    int
-	Array      int
-	Bitmap     int
-	HashArray  int
-	Value      int
-	Collision  int
-	MaxDepth   int
+	Foreign   bool // the base is not this package's trie (e.g. the zero-value route through UnsafeGoMap)
+	Entries   int
+	Array     int
+	Bitmap    int
+	HashArray int
+	Value     int
+	Collision int
+	MaxDepth  int
 	// node kinds met below the root (depth > 1): the conversions between kinds behave differently there
 	BitmapDeep    int
 	HashArrayDeep int
 	CollisionDeep int
-	Structural uint64 // content fingerprint of the whole trie (node kinds, bitmaps, keys, values)
+	Structural    uint64 // content fingerprint of the whole trie (node kinds, bitmaps, keys, values)
 }
 
 // VerifCheck walks the trie behind base and checks: popcount(bitmap) == len(nodes) and no nil child;
